@@ -56,9 +56,9 @@ class OpEvalBase(FnContract):
         ex.prove('C01:Op.eval:budget-itself-unchanged', ['C01'], max_ops(ex.heap) == m)
 
 
-def base_setup(cls):
+def base_setup(cls, any_ops=False):
     def setup(ex):
-        state = setup_cur_state(ex)
+        state = setup_cur_state(ex, below_limit=not any_ops)
         self_ = setup_self(ex, cls)
         env = Env()
         env.vars['self'] = self_
@@ -407,24 +407,55 @@ def iteration_hooks(engine):
 
 
 # ---------------------------------------------------------------------------------- closure f
-def closure_setup(engine):
-    fi = engine.src.funcs[MOD + 'LambdaOp.eval.f']
+def closure_task(engine):
+    """the closure a LambdaOp evaluates to, checked as a callable (UCC) in the environment its creator
+    really builds: the prologue runs LambdaOp.eval symbolically and takes the closure it returns"""
+    creator = engine.src.funcs[MOD + 'LambdaOp.eval']
+    setup0 = base_setup('LambdaOp')
 
-    def setup(ex):
-        state = setup_cur_state(ex)
-        self_ = setup_self(ex, 'LambdaOp')
-        outer = Env()
-        outer.vars['self'] = self_
-        # A-D11 (DESIGN 10/C01 O7): the captured VM state is the one of the evaluation in progress
-        outer.vars['state'] = state
+    def prologue(ex, ctx):
+        try:
+            ex.cur_func = creator.key
+            clo = engine.calls.inline(ex, creator, [ctx['self'], ctx['state']], {}, None)
+        except PyRaise:
+            raise PathEnd()          # the limit was reached while defining the lambda: no closure exists
+        from sqv.symex import Closure
+        if not isinstance(clo, Closure):
+            clo = ex.closures.get(L.simp(Val.fn(ex.to_val(clo))).get_id()) if isinstance(clo, z3.ExprRef) else None
+        if clo is None:
+            raise Unsupported('LambdaOp.eval does not return a closure defined in it')
+        # later, during the same evaluation (A-CLOSURE-STATE; across eval calls: known finding D11):
         ex.use_assumption('A-CLOSURE-STATE: a called closure captured the VM state of the evaluation in progress '
                           '(established by C01 O7 at SqParser.eval; known finding D11 across eval calls)')
-        env = Env(outer)
-        env.vars['args'] = plain_pack(ex, 'args')
-        ctx = {'env': env, 'self': self_, 'state': state, 'cls': 'LambdaOp', 'entry': ex.heap.copy()}
+        ex.havoc(['F_ops_evaluated'])
+        ex.havoc_data()
+        ex.havoc_alloc()
+        ex.entry_next = ex.next_base          # what exists now existed before the call
+        ex.heap.g['nodes'] = ex.fresh_int('nodes')
+        h = ex.heap
+        ex.assume(L.is_Int(h.fld('ops_evaluated', CUR)))
+        ex.assume(z3.And(ops(h) >= 0, ops(h) < max_ops(h)))
+        sref = cur_scopes(h)
+        ex.assume(h.llen(sref) >= 1)
+        ex.events = []
+        ex.deepcopies = []
+        ctx = dict(ctx)
+        ctx['closure'] = clo
+        ctx['pack'] = plain_pack(ex, 'args')
+        ctx['entry'] = ex.heap.copy()
         ex.ctx = ctx
+        ex.cur_func = ex.task.label
         return ctx
-    return fi, setup
+
+    def body(ex, ctx):
+        from sqv.calls import Pack
+        return engine.calls.call_value(ex, ctx['closure'], [Pack(ctx['pack'])], {})
+    fi = engine.src.funcs.get(MOD + 'LambdaOp.eval.f') or creator
+    t = Task(MOD + 'LambdaOp.eval.<closure>', 'closure', fi, setup0, F.ALL_FAMILIES, ClosureSpec(engine),
+             label=MOD + 'LambdaOp.eval.f')
+    t.prologue = prologue
+    t.body = body
+    return t
 
 
 class ClosureSpec(FnContract):
@@ -454,7 +485,9 @@ def tasks(engine):
     out = []
     src = engine.src
     base = src.funcs[MOD + 'Op.eval']
-    t = Task(base.key, 'op_base', base, base_setup('NoOp'), [F.Raises], OpEvalBase(engine))
+    # O1 is checked for every value of the counter, also at and beyond the limit (a host callback
+    # may have swallowed an earlier limit error: the next operation must fail again)
+    t = Task(base.key, 'op_base', base, base_setup('NoOp', any_ops=True), [F.Raises], OpEvalBase(engine))
     t.allowed_field_writes = ('ops_evaluated',)
     out.append(t)
     # classes that inherit Op.eval unchanged are node kinds too (NoOp): Op.eval itself must refine
@@ -471,8 +504,7 @@ def tasks(engine):
         else:
             t = Task(fi.key, 'op_override', fi, base_setup(cls), F.ALL_FAMILIES, OverrideSpec(engine, cls))
             out.append(t)
-    fi, setup = closure_setup(engine)
-    out.append(Task(fi.key, 'closure', fi, setup, F.ALL_FAMILIES, ClosureSpec(engine)))
+    out.append(closure_task(engine))
     return out
 
 
